@@ -151,10 +151,11 @@ def Inv (le : α → α → Prop) (s : State α κ σ) : Prop :=
   Covered le s ∧ ∀ q ∈ s.procs, ∀ i ∈ q.instrs, OkI le s.pub i
 
 /-- side condition of one event: what the client pushes is strictly ordered -/
-def ClientOk (le : α → α → Prop) (cl : Client α κ σ) (s : State α κ σ) : Event κ → Prop
+def ClientOk (le : α → α → Prop) (cl : Client α κ σ) (s : State α κ σ) : Event α κ → Prop
   | .step pid arg => ∀ p c rest loc' is, s.procs[pid]? = some p → p.instrs = .client c :: rest →
       cl.expand c arg s.heads p.loc = some (loc', is) → ∀ i ∈ is, OkI le s.pub i
-  | _ => True
+  | .start _ prog => ∀ i ∈ prog, OkI le s.pub i
+  | .crash _ => True
 
 omit [DecidableEq α] in
 theorem mkProc_instrs (cl : Client α κ σ) (loc : σ) (is : List (Instr α κ)) : (mkProc cl loc is).instrs = is := rfl
@@ -239,7 +240,7 @@ theorem inv_step {le : α → α → Prop} (hle : IsPreorder le) {w : Bool} {cl 
         · exact hpok i (by rw [hi]; simp [hi'])
 
 theorem inv_apply {le : α → α → Prop} (hle : IsPreorder le) {w : Bool} {cl : Client α κ σ}
-    {s t : State α κ σ} {e : Event κ}
+    {s t : State α κ σ} {e : Event α κ}
     (hs : Inv le s) (hc : ClientOk le cl s e) (h : apply w cl s e = some t) : Inv le t := by
   cases e with
   | step pid arg => exact inv_step hle hs hc h
@@ -256,9 +257,7 @@ theorem inv_apply {le : α → α → Prop} (hle : IsPreorder le) {w : Bool} {cl
         intro q hq i hi
         rcases List.mem_or_eq_of_mem_set hq with hq | rfl
         · exact hs.2 q hq i hi
-        · simp only [List.mem_map] at hi
-          obtain ⟨o, _, rfl⟩ := hi
-          cases o <;> trivial
+        · exact hc i hi
       · simp at h
   | crash pid =>
     simp only [apply] at h
@@ -274,13 +273,13 @@ theorem inv_apply {le : α → α → Prop} (hle : IsPreorder le) {w : Bool} {cl
       · simp at hi
 
 /-- the side condition holds before every event of the run -/
-def RunOk (C : State α κ σ → Event κ → Prop) (w : Bool) (cl : Client α κ σ) :
-    State α κ σ → List (Event κ) → Prop
+def RunOk (C : State α κ σ → Event α κ → Prop) (w : Bool) (cl : Client α κ σ) :
+    State α κ σ → List (Event α κ) → Prop
   | _, [] => True
   | s, e :: es => C s e ∧ ∀ t, apply w cl s e = some t → RunOk C w cl t es
 
 theorem inv_run {le : α → α → Prop} (hle : IsPreorder le) {w : Bool} {cl : Client α κ σ}
-    {s t : State α κ σ} {es : List (Event κ)}
+    {s t : State α κ σ} {es : List (Event α κ)}
     (hs : Inv le s) (hc : RunOk (ClientOk le cl) w cl s es) (h : run w cl s es = some t) : Inv le t := by
   induction es generalizing s with
   | nil => simp only [run, Option.some.injEq] at h; subst h; exact hs
@@ -341,13 +340,14 @@ def InvA (le : α → α → Prop) (s : State α κ σ) : Prop :=
 /-- side condition of one event in the atomic regime: what the client pushes is covered by the new
     head (a removal of the new head itself being guarded), and a removal step is only taken while
     no *other* process has removals pending -/
-def AtomicOk (le : α → α → Prop) (cl : Client α κ σ) (s : State α κ σ) : Event κ → Prop
+def AtomicOk (le : α → α → Prop) (cl : Client α κ σ) (s : State α κ σ) : Event α κ → Prop
   | .step pid arg =>
       (∀ p c rest loc' is, s.procs[pid]? = some p → p.instrs = .client c :: rest →
         cl.expand c arg s.heads p.loc = some (loc', is) → (∀ i ∈ is, OkA le s.heads i) ∧ NoRms is)
       ∧ (∀ p new pend rest, s.procs[pid]? = some p → p.instrs = .rms new pend :: rest →
           ∀ (j : Nat) (q : Proc α κ σ), j ≠ pid → s.procs[j]? = some q → NoRms q.instrs)
-  | _ => True
+  | .start _ prog => (∀ i ∈ prog, OkA le s.heads i) ∧ NoRms prog
+  | .crash _ => True
 
 omit [DecidableEq α] in
 theorem noRms_tail_rmsInstr {new : α} {pend : List α} {rest : List (Instr α κ)} (h : NoRms rest) :
@@ -451,7 +451,7 @@ theorem invA_step {le : α → α → Prop} (hle : IsPreorder le) {w : Bool} {cl
       · exact hproc j q hj
 
 theorem invA_apply {le : α → α → Prop} (hle : IsPreorder le) {w : Bool} {cl : Client α κ σ}
-    {s t : State α κ σ} {e : Event κ}
+    {s t : State α κ σ} {e : Event α κ}
     (hs : InvA le s) (hc : AtomicOk le cl s e) (h : apply w cl s e = some t) : InvA le t := by
   cases e with
   | step pid arg => exact invA_step hle hs hc h
@@ -467,12 +467,7 @@ theorem invA_apply {le : α → α → Prop} (hle : IsPreorder le) {w : Bool} {c
         refine ⟨hs.1, ?_⟩
         intro j q hj
         rcases getElem?_set_cases hj with ⟨_, rfl⟩ | ⟨_, hj⟩
-        · have hall : ∀ i ∈ prog.map (Instr.ofProg (α := α)), isRms i = false ∧ OkA le s.heads i := by
-            intro i hi
-            simp only [List.mem_map] at hi
-            obtain ⟨o, _, rfl⟩ := hi
-            cases o <;> exact ⟨rfl, trivial⟩
-          exact ⟨fun i hi => (hall i hi).2, fun i hi => (hall i (List.mem_of_mem_tail hi)).1⟩
+        · exact ⟨hc.1, fun i hi => hc.2 i (List.mem_of_mem_tail hi)⟩
         · exact hs.2 j q hj
       · simp at h
   | crash pid =>
@@ -489,7 +484,7 @@ theorem invA_apply {le : α → α → Prop} (hle : IsPreorder le) {w : Bool} {c
       · exact hs.2 j q hj
 
 theorem invA_run {le : α → α → Prop} (hle : IsPreorder le) {w : Bool} {cl : Client α κ σ}
-    {s t : State α κ σ} {es : List (Event κ)}
+    {s t : State α κ σ} {es : List (Event α κ)}
     (hs : InvA le s) (hc : RunOk (AtomicOk le cl) w cl s es) (h : run w cl s es = some t) : InvA le t := by
   induction es generalizing s with
   | nil => simp only [run, Option.some.injEq] at h; subst h; exact hs
